@@ -420,7 +420,8 @@ func init() {
 	register(&vf.Check{
 		ID:        "C11",
 		Technique: "reference-model monitor (ring positions as plain integers) over random Claim/Commit/Consume/Reset histories for every accepted size class; physical read-back through a window on the first mapping; /proc/self/maps, /dev/shm and fd census after Destroy; checkptr build",
-		Rule: "cases = (requested size from {1,4095,4096,4097,2..8,12,16,31,32 pages,10000,100000,1 MiB,1 MiB+1,3 MiB+1 page}, with and without prefault, chosen round-robin by case index) x random history of 50-500 Claim/Commit/Consume/Reset with amounts from {0,1,page-1,page,avail-1,avail,avail+1,size,2*size,MaxInt-{0,1,used,free,size},random}, each ending in Destroy; " +
+		Rule: "plus sparse probes on buffers of 4, 5, 6 and 8 GiB (never prefaulted; positions, stamps at both ends of every claim, mirror at the ring end); " +
+			"cases = (requested size from {1,4095,4096,4097,2..8,12,16,31,32 pages,10000,100000,1 MiB,1 MiB+1,3 MiB+1 page}, with and without prefault, chosen round-robin by case index) x random history of 50-500 Claim/Commit/Consume/Reset with amounts from {0,1,page-1,page,avail-1,avail,avail+1,size,2*size,MaxInt-{0,1,used,free,size},random}, each ending in Destroy; " +
 			"non-trivial = the commits wrapped around the ring end at least once on that size; distinct = (size, call-sequence shape)",
 		Assumptions: []string{
 			"amounts are non-negative",
